@@ -67,6 +67,16 @@ func c01Eval(c *choice.Ctx, st *Stats, a *refmodel.Claims, deep bool) {
 		return
 	}
 	wantType := reflect.TypeOf(lit)
+	// NewClaims + setters (what the stock factory hands out, filled in through the API); only valid claims-sets can be
+	// built that way
+	if want && a.Canon != "" {
+		if x, berr := buildBySetters(a); berr == nil {
+			verdict("setters", x)
+			st.Outcome("setter-built")
+		} else if berr != errNotRepresentable {
+			c.Failf(fmt.Sprintf("C01:valid-claims-cannot-be-set:P%d", a.P), "the setters refuse a claims-set that meets every rule: %v\n%s", berr, desc)
+		}
+	}
 	// CBOR
 	wire := mcbor.Encode(wireTree(a, true))
 	var dc psatoken.IClaims
